@@ -4,6 +4,7 @@
   RAND_bytes values) and executes the World model, printing the same canonical
   line as the harness.
 -/
+import Rsp.Generated.Facts
 import Rsp.Model.Discover
 import Rsp.Model.World
 import Rsp.Hash.Md5
@@ -47,6 +48,7 @@ def parseRewriteTok (fields : List String) : Option (String × Rewrite) :=
 
 structure CfgAcc where
   opts : Options := {}
+  macopts : String := ""             -- what LogMAC / FTicksMAC / FTicksReporting must have been understood as
   rws : List (String × Rewrite) := []
   clis : List CliConf := []
   srvs : List (String × SrvConf × Nat) := []
@@ -61,12 +63,28 @@ def srvIdx (a : CfgAcc) (names : String) : Option (List Nat) :=
 
 def parseCfgTok (a : CfgAcc) (tok : String) : Option CfgAcc :=
   match tok.splitOn ";" with
-  | "O" :: addttl :: ttl :: lp :: ve :: _ => do
+  | "O" :: addttl :: ttl :: lp :: ve :: rest => do
     let addttl ← (kv addttl).toNat?
     let ttl ← match (kv ttl).splitOn "," with
       | [x, y] => do pure ((← x.toNat?), (← y.toNat?))
       | _ => none
-    pure { a with opts := { addttl := addttl, ttlType := ttl, loopPrev := kv lp = "1", verifyEap := kv ve = "1" } }
+    -- LogMAC (default Original), FTicksMAC (default VendorKeyHashed), FTicksReporting (default None): the mode names of the manual,
+    -- numbered as the regenerated enum says
+    let mode (n : String) (dflt : Option Nat) : Option Nat :=
+      if n = "-" then dflt
+      else if n = "Static" then Rsp.Generated.RSP_MAC_STATIC else if n = "Original" then Rsp.Generated.RSP_MAC_ORIGINAL
+      else if n = "VendorHashed" then Rsp.Generated.RSP_MAC_VENDOR_HASHED else if n = "VendorKeyHashed" then Rsp.Generated.RSP_MAC_VENDOR_KEY_HASHED
+      else if n = "FullyHashed" then Rsp.Generated.RSP_MAC_FULLY_HASHED else if n = "FullyKeyHashed" then Rsp.Generated.RSP_MAC_FULLY_KEY_HASHED
+      else none
+    let macopts := match rest with
+      | [lm, fm, fr] =>
+        (match mode (kv lm) Rsp.Generated.RSP_MAC_ORIGINAL, mode (kv fm) Rsp.Generated.RSP_MAC_VENDOR_KEY_HASHED with
+         | some l, some f =>
+           let r := if kv fr = "Basic" then 1 else if kv fr = "Full" then 2 else 0
+           s!" macopts:{l},{f},{r}"
+         | _, _ => " macopts:untied")
+      | _ => ""
+    pure { a with opts := { addttl := addttl, ttlType := ttl, loopPrev := kv lp = "1", verifyEap := kv ve = "1" }, macopts := macopts }
   | "W" :: fields => do
     let r ← parseRewriteTok fields
     pure { a with rws := a.rws ++ [r] }
@@ -227,7 +245,7 @@ def worldOp1 (st : Option World) (op : String) (args tr : List String) : Option 
       -- every TLS / DTLS block has been given its TLS context while the configuration was read
       let tls := String.join ((a.clis.filter fun c => c.type = 1 || c.type = 3).map fun c => s!" tlsctx:{bytesStr c.name}:1") ++
                  String.join ((a.srvs.filter fun (_, c, _) => c.type = 1 || c.type = 3).map fun (_, c, _) => s!" tlsctx:{bytesStr c.name}:1")
-      (some w, "ok" ++ tls ++ s ++ (if initialOk wz then "" else " MODEL-INITIAL-STATE-NOT-Initial"))
+      (some w, "ok" ++ a.macopts ++ tls ++ s ++ (if initialOk wz then "" else " MODEL-INITIAL-STATE-NOT-Initial"))
   | "client", [name], some w =>
     match cliIdx w name with
     | some ci => (some { w with clients := w.clients ++ [{ conf := ci }] }, s!"c{w.clients.length}")
